@@ -63,7 +63,8 @@ class QueryPlanner:
                     integration_name = predictor['integration_name']
                 else:
                     integration_name = self.predictor_namespace
-                    predictor['integration_name'] = integration_name
+                    # the caller's entry is left as it is: the same list may be planned with another namespace
+                    predictor = dict(predictor, integration_name=integration_name)
                 idx = f'{integration_name}.{predictor["name"]}'.lower()
                 self.predictor_info[idx] = predictor
                 _projects.add(integration_name.lower())
@@ -75,13 +76,13 @@ class QueryPlanner:
                         integration_name = predictor['integration_name']
                     else:
                         integration_name = self.predictor_namespace
-                        predictor['integration_name'] = integration_name
+                        predictor = dict(predictor, integration_name=integration_name)
                     name = f'{integration_name}.{name}'.lower()
                     _projects.add(integration_name.lower())
                 else:
                     # the key is 'project.name': the project is the part in front of the name
                     integration_name = name.rsplit('.', 1)[0]
-                    predictor['integration_name'] = integration_name
+                    predictor = dict(predictor, integration_name=integration_name)
                     name = name.lower()
                     _projects.add(integration_name.lower())
 
